@@ -206,7 +206,22 @@ func VP_C09_Levenshtein() {
 	}
 	vpAssert(v == want, "Levenshtein is 0 on the diagonal and -1 elsewhere")
 	n, mm := vpCase("n"), vpCase("m")
-	a, b := vpAnySeq("a", n), vpAnySeq("b", mm)
+	var a, b []byte
+	if vpCaseOr("allBytes", 0) == 1 {
+		// binary data: a holds every byte value 0..254 once (all 255 symbols
+		// besides the gap) and then the last value twice more; b is a without
+		// those two (concrete - a 257x255 table with symbolic bytes does not
+		// finish): any per-call numbering of the distinct symbols runs through
+		// its whole range
+		for c := 0; c < 255; c++ {
+			a = append(a, byte(c))
+		}
+		b = append([]byte(nil), a...)
+		a = append(a, 254, 254)
+		n, mm = len(a), len(b)
+	} else {
+		a, b = vpAnySeq("a", n), vpAnySeq("b", mm)
+	}
 	_, score := Global(a, b, Levenshtein)
 	// Wagner-Fischer
 	d := make([]float64, (n+1)*(mm+1))
